@@ -76,6 +76,7 @@ fn check_type<T: Jetty>(tname: &str, ctx: &Ctx, shard: usize, nshards: usize, ti
     let per = ctx.n(60, 3000);
     let funcs = c01_funcs();
     let u = unit_roundoff::<T>();
+    ndv_core::track::set_u(u);
     let mut idx = 0u64;
     for (fi, f) in funcs.iter().enumerate() {
         let regs = regions(*f);
